@@ -568,6 +568,13 @@ def generate_all(base_build_dir):
     groups["params"] = {"obligations": pr["obligations"], "failures": pr["failures"]}
     import translate_ct
     groups["ct"] = translate_ct.generate(gen_dir)
+    # Edwards formulas (C17): translated from the 255-bit configurations
+    try:
+        import translate_ed
+        er = translate_ed.generate()
+        groups["ed"] = {"obligations": er["obligations"], "failures": er["failures"]}
+    except Exception as e:  # noqa: BLE001
+        groups["ed"] = {"obligations": [], "failures": ["Edwards translator: %r" % (e,)]}
     return {"groups": groups}
 
 
